@@ -52,11 +52,11 @@ func (s *c09Shedder) Allow() (load.Promise, error) {
 func TestZsimC09Http(t *testing.T) {
 	zsim.Main(t, zsim.Harness{
 		Property: "C09", Name: "shedding-http",
-		Run:      c09HttpRun,
-		Horizon:  time.Hour,
-		Rule:     "1-4 client tasks send requests through SheddingHandler over a counting shedder that rejects on a drawn schedule; inner handlers answer drawn statuses (incl. 503), sleep, or panic; oracle: rejected => 503 and the handler did not run; admitted => exactly one Pass/Fail (Fail iff the response was 503), in-flight back to zero at the end; non-trivial = a rejection, a 503 from the handler or a panic occurred; distinct = distinct event-log fingerprint",
-		Real:     []string{"api/handler.SheddingHandler", "api/internal/response.WithCodeResponseWriter"},
-		Stub:     []string{"load.Shedder (counting)", "inner handlers", "clients"},
+		Run:     c09HttpRun,
+		Horizon: time.Hour,
+		Rule:    "1-4 client tasks send requests through SheddingHandler over a counting shedder that rejects on a drawn schedule; inner handlers answer drawn statuses (incl. 503), sleep, or panic; oracle: rejected => 503 and the handler did not run; admitted => exactly one Pass/Fail (Fail iff the response was 503), in-flight back to zero at the end; non-trivial = a rejection, a 503 from the handler or a panic occurred; distinct = distinct event-log fingerprint",
+		Real:    []string{"api/handler.SheddingHandler", "api/internal/response.WithCodeResponseWriter"},
+		Stub:    []string{"load.Shedder (counting)", "inner handlers", "clients"},
 	})
 }
 
